@@ -420,6 +420,22 @@ FORMER_D9 = [_w("gcxs", [6], [0, 5, 6, 0, 0, 0], None), _w("csr", [2, 3], [[0, 5
 MM_FORMER = {"fmt": "gcxs", "shape": [2, 3, 4], "axes": [0, 2], "pattern": "partial", "dtype": "int64", "fill": "0", "seed": 21}
 
 
+# COOs given by explicit coordinates in a narrow index dtype, with extents around and beyond the width of that dtype
+NARROW_RAW = [("int8", [127], [[0, 100]]), ("int8", [128], [[0, 100]]), ("int8", [200], [[0, 100]]), ("int8", [300], [[0, 1]]),
+              ("int8", [300], [[0, 100]]), ("int8", [256], [[]]), ("uint8", [255], [[0, 254]]), ("uint8", [256], [[0, 255]]),
+              ("uint8", [300], [[0, 3]]), ("uint8", [256], [[]]), ("int16", [3, 40000], [[0, 2], [5, 30000]]),
+              ("int16", [2, 32767], [[0, 1], [5, 30000]]), ("uint16", [65536, 2], [[0, 70], [0, 1]]),
+              ("int32", [5, 7], [[0, 4], [1, 6]]), ("uint64", [5, 7], [[0, 4], [1, 6]]), ("int8", [2, 3, 300], [[0, 1], [1, 2], [0, 9]]),
+              ("int16", [70000], [[0, 32767]]), ("uint8", [1000, 2], [[0, 255], [1, 0]]), ("int8", [128, 129, 2], [[0, 127], [5, 127], [0, 1]]),
+              ("uint16", [2, 100000], [[0, 1], [3, 65535]]), ("int32", [3000000000], [[0, 2147483647]])]
+
+
+def raw_spec(idx, shape, coords):
+    n = len(coords[0])
+    return {"fmt": "coo", "shape": shape, "axes": None, "pattern": "raw", "dtype": "int64", "fill": "0", "seed": 0,
+            "raw": {"idx": idx, "coords": coords, "data": list(range(5, 5 + n))}}
+
+
 def axes_subsets(nd):
     return [list(c) for r in range(1, nd) for c in itertools.combinations(range(nd), r)]
 
@@ -469,6 +485,9 @@ def gen_specs(tier, rng):
                     add("csr", sh, [0], pat)             # comes back as a plain GCXS
                     add("csc", sh, [1], pat)
     specs.extend(FORMER_D9)
+    # narrow-coordinate COOs whose extents exceed the coordinate dtype: save/load, pickle, copy like any other array
+    specs.extend(raw_spec(*r) for r in NARROW_RAW)
+    specs.extend(FORMER_NB)
     # the full dtype x fill table on one 2-d shape, COO and GCXS (both axes)
     for d, f in combos:
         for fmt, ax in (("coo", None), ("gcxs", [0]), ("gcxs", [1])):
@@ -496,13 +515,7 @@ def gen_numba_specs(tier, rng, specs):
         if len(out) >= limit:
             break
     # narrow coordinate dtypes with extents around and beyond the width of the dtype (ordinary cases since eb8a9b8)
-    raw = [("int8", [127], [[0, 100]]), ("int8", [128], [[0, 100]]), ("int8", [200], [[0, 100]]), ("int8", [300], [[0, 1]]),
-           ("int8", [300], [[0, 100]]), ("int8", [256], [[]]), ("uint8", [255], [[0, 254]]), ("uint8", [256], [[0, 255]]),
-           ("uint8", [300], [[0, 3]]), ("uint8", [256], [[]]), ("int16", [3, 40000], [[0, 2], [5, 30000]]),
-           ("int16", [2, 32767], [[0, 1], [5, 30000]]), ("uint16", [65536, 2], [[0, 70], [0, 1]]),
-           ("int32", [5, 7], [[0, 4], [1, 6]]), ("uint64", [5, 7], [[0, 4], [1, 6]]), ("int8", [2, 3, 300], [[0, 1], [1, 2], [0, 9]]),
-           ("int16", [70000], [[0, 32767]]), ("uint8", [1000, 2], [[0, 255], [1, 0]]), ("int8", [128, 129, 2], [[0, 127], [5, 127], [0, 1]]),
-           ("uint16", [2, 100000], [[0, 1], [3, 65535]]), ("int32", [3000000000], [[0, 2147483647]])]
+    raw = NARROW_RAW
     for pat in ("empty", "full"):
         out.append({"fmt": "coo", "shape": [], "axes": None, "pattern": pat, "dtype": "int64", "fill": "0", "seed": 11})
     out.extend(FORMER_NB)
